@@ -815,7 +815,7 @@ def search(ck, seeds=None):
 
 COQ_EXTRA = '''From Model Require Import PyHash Graph Morgan MorganFast Stereo Writer ChiralMorgan.
 From Model Require Import StereoRegistry.
-From Proofs Require Import WriterInvProofs WriterStereoExt StereoProofs RegistryRemapExt StereoOrderExt EnvLaws CtMapOrderExt SameStereo ChiralOrderExt ChiralReinsertExt ChiralReinsertBool ChiralStates.
+From Proofs Require Import WriterInvProofs WriterStereoExt StereoProofs RegistryRemapExt StereoOrderExt EnvLaws CtMapOrderExt SameStereo ChiralOrderExt ChiralReinsertExt ChiralReinsertBool ChiralStates MolPermDecide.
 Import ListNotations.
 Open Scope Z_scope.
 Definition iadj_eqb (a b : iadj) : bool := list_eqb (pair_eqb Z.eqb (list_eqb (pair_eqb Z.eqb Z.eqb))) a b.
@@ -890,7 +890,7 @@ Definition cmres_perm_b (a b : pyres (labels * list labels)) : bool :=
   end.
 Definition two_hyp (rings : list Z) (g g1 : mol) (tabs tabs1 : cmtabs) (flips : list (Z * Z)) (ord ord1 : cmorders) : option (labels * labels * bool) :=
   match fast_atoms_order rings g, fast_atoms_order rings g1 with
-  | Ok ao, Ok ao1 => Some (ao, ao1, two_desc_b hash63 g g1 tabs tabs1 (fun p => existsb (cpair_eqb p) flips) ao ao1 ord ord1)
+  | Ok ao, Ok ao1 => Some (ao, ao1, mol_perm_b (strip g) (strip g1) && two_desc_b hash63 g g1 tabs tabs1 (fun p => existsb (cpair_eqb p) flips) ao ao1 ord ord1)
   | _, _ => None
   end.
 Definition two_ok (rings : list Z) (g g1 : mol) (tabs tabs1 : cmtabs) (flips : list (Z * Z)) (ord ord1 : cmorders) : bool :=
